@@ -2,7 +2,7 @@ import TracklibVerif.Lemmas.GraphStop
 /-! Lemmas for C06: the specification `IsDist`, the label of the target under target stop + cut-off,
 and the `{(source, node): distance}` table built by `all_shortest_distances` / `prepare`. -/
 namespace TV.Graph
-variable {W : Type} [AddCommMonoid W] [LinearOrder W] [IsOrderedAddMonoid W]
+variable {W : Type} [LinearOrder W] [Add W] [Zero W] [WalkAdd W]
 
 /-- `y` is the minimum total weight over all walks of permitted arcs from `s` to `v` -/
 def IsDist (net : Net W) (s v : Nat) (y : W) : Prop := Walk net s v y ∧ ∀ c, Walk net s v c → y ≤ c
